@@ -458,71 +458,332 @@ func proxyJudge(prop string) func(c *Ctx, req map[string]any, impl any, orc map[
 		if strings.Join(modelFwd, "\n") != strings.Join(implFwd, "\n") {
 			fs = append(fs, Finding{Kind: "mismatch", Region: "proxy.forwarded", Detail: "forwarded requests differ from model: impl=" + trunc(strings.Join(implFwd, " ; "), 300) + " model=" + trunc(strings.Join(modelFwd, " ; "), 300)})
 		}
-		// Tier A (C09): every forwarded raw transaction recovers to the requested from with the requested fields
-		for _, f := range normList(orc["forwarded"]) {
-			fm := f.(map[string]any)
-			if fm["method"] != "eth_sendRawTransaction" || fm["from"] == nil {
-				continue
+		// Tier A (C09), independent of the model: ids, relayed results / errors, and what was signed
+		fs = append(fs, proxySpecCheck(c, req, reply)...)
+		return fs
+	}
+}
+
+// ---- the property's own reading of one exchange (no model involved) ----
+func bigOf(v any) (*big.Int, bool) {
+	switch t := v.(type) {
+	case nil:
+		return nil, true
+	case string:
+		z, okk := new(big.Int).SetString(t, 0)
+		return z, okk && z.Sign() >= 0
+	case json.Number:
+		z, okk := new(big.Int).SetString(t.String(), 10)
+		return z, okk && z.Sign() >= 0
+	}
+	return nil, false
+}
+
+type expTx struct {
+	from                                       string
+	nonce, gas, value, gasPrice, feeCap, tip    string
+	to, data                                   string
+	is1559                                     bool
+}
+
+func z(b *big.Int) string {
+	if b == nil {
+		return "0"
+	}
+	return b.String()
+}
+
+// cleanSendTx: a member that must be signed and submitted; (nil,true) = must not be submitted; (nil,false) = no verdict
+func cleanSendTx(m map[string]any, script map[string]any, accounts []string) (*expTx, bool) {
+	if m["id"] == nil || m["method"] != "eth_sendTransaction" {
+		return nil, false
+	}
+	ps, _ := m["params"].([]any)
+	if len(ps) < 1 {
+		return nil, true
+	}
+	tx, isObj := ps[0].(map[string]any)
+	if !isObj {
+		return nil, true
+	}
+	for k := range tx { // only the canonical member names (Go's case folding is the model's business)
+		switch k {
+		case "from", "nonce", "gas", "gasPrice", "maxFeePerGas", "maxPriorityFeePerGas", "value", "to", "data":
+		default:
+			return nil, false
+		}
+	}
+	from, isStr := tx["from"].(string)
+	known := false
+	for _, a := range accounts {
+		if isStr && strings.EqualFold(strings.TrimPrefix(from, "0x"), a) && len(strings.TrimPrefix(from, "0x")) == 40 {
+			known = true
+		}
+	}
+	e := &expTx{from: strings.ToLower(strings.TrimPrefix(from, "0x"))}
+	allOK := true
+	num := func(k string) string {
+		b, okk := bigOf(tx[k])
+		if !okk {
+			allOK = false
+		}
+		return z(b)
+	}
+	e.gas, e.value, e.gasPrice, e.feeCap, e.tip = num("gas"), num("value"), num("gasPrice"), num("maxFeePerGas"), num("maxPriorityFeePerGas")
+	e.is1559 = e.feeCap != "0" || e.tip != "0"
+	if tx["nonce"] != nil {
+		e.nonce = num("nonce")
+	}
+	if t, has := tx["to"]; has && t != nil {
+		ts, isS := t.(string)
+		if !isS || len(strings.TrimPrefix(ts, "0x")) != 40 {
+			allOK = false
+		}
+		e.to = strings.ToLower(strings.TrimPrefix(ts, "0x"))
+	}
+	if d, has := tx["data"]; has && d != nil {
+		ds, isS := d.(string)
+		if !isS {
+			allOK = false
+		}
+		e.data = strings.ToLower(strings.TrimPrefix(ds, "0x"))
+		if !isHexStr(e.data) || len(e.data)%2 != 0 {
+			allOK = false
+		}
+	}
+	if !isHexStr(e.to) || !isHexStr(e.from) {
+		allOK = false
+	}
+	if !allOK {
+		return nil, false // malformed field: rejected, but which error is not the property's business
+	}
+	if !known {
+		return nil, true
+	}
+	if tx["nonce"] == nil {
+		gc, _ := script["eth_getTransactionCount"].(map[string]any)
+		if gc["kind"] != "result" {
+			if gc["kind"] == "resultNoVersion" || gc["kind"] == "wrongId" {
+				return nil, false
 			}
+			return nil, true // the nonce could not be obtained: nothing may be submitted
+		}
+		b, okk := bigOf(gc["value"])
+		if !okk {
+			return nil, true
+		}
+		if b == nil {
+			return nil, true // a null pending count is no nonce: nothing may be submitted
+		}
+		e.nonce = b.String()
+	}
+	return e, true
+}
+
+func proxySpecCheck(c *Ctx, req map[string]any, reply any) []Finding {
+	var fs []Finding
+	body := unhx(fmt.Sprint(req["body"]))
+	var parsed any
+	d := json.NewDecoder(bytes.NewReader(body))
+	d.UseNumber()
+	if d.Decode(&parsed) != nil || req["goValid"] != true {
+		return nil
+	}
+	script := map[string]any{}
+	if sm, isSM := req["script"].(map[string]map[string]any); isSM {
+		for k, v := range sm {
+			script[k] = v
+		}
+	} else if sm, isSM := req["script"].(map[string]any); isSM {
+		script = sm
+	}
+	accounts := []string{}
+	if sl, isSL := req["accounts"].([]string); isSL {
+		accounts = sl
+	}
+	for _, a := range normList(req["accounts"]) {
+		accounts = append(accounts, fmt.Sprint(a))
+	}
+	var members, replies []any
+	trimmed := bytes.TrimLeft(body, " \t\r\n")
+	if l, isList := parsed.([]any); isList && len(trimmed) > 0 && trimmed[0] == '[' {
+		rl, isRL := reply.([]any)
+		if !isRL || len(rl) != len(l) {
+			return nil // malformed batches / parse errors are C16's
+		}
+		members, replies = l, rl
+	} else {
+		members, replies = []any{parsed}, []any{reply}
+	}
+	scriptFor := func(method string) map[string]any {
+		if s, has := script[method].(map[string]any); has {
+			return s
+		}
+		s, _ := script["*"].(map[string]any)
+		return s
+	}
+	var expected []*expTx
+	verdictForAll := true
+	for i, mv := range members {
+		m, isObj := mv.(map[string]any)
+		rp, isRObj := replies[i].(map[string]any)
+		if !isObj || !isRObj {
+			continue
+		}
+		canonicalNames := true
+		for k := range m {
+			if k != "id" && k != "method" && k != "params" && k != "jsonrpc" {
+				canonicalNames = false
+			}
+		}
+		method, methodIsStr := m["method"].(string)
+		if v, has := m["jsonrpc"]; has && v != nil {
+			if _, isStr := v.(string); !isStr {
+				canonicalNames = false // not a well-formed request: C16's business
+			}
+		}
+		if !canonicalNames || !methodIsStr {
+			if m["method"] == "eth_sendTransaction" || !methodIsStr {
+				verdictForAll = false
+			}
+			continue
+		}
+		// each response carries the request's own id
+		if m["id"] != nil && !same(normJ(rp["id"]), normJ(m["id"])) {
+			fs = append(fs, Finding{Kind: "violation", Region: "proxy.reply.id", Detail: fmt.Sprintf("member %d: response id %s is not the request's id %s", i, canon(rp["id"]), canon(m["id"]))})
+		}
+		if m["id"] == nil {
+			continue
+		}
+		if _, isList := m["params"].([]any); m["params"] != nil && !isList {
+			continue
+		}
+		switch method {
+		case "eth_accounts", "personal_accounts":
+			var want []any
+			for _, a := range accounts {
+				want = append(want, "0x"+a)
+			}
+			got := normList(rp["result"])
+			gs, ws := []string{}, []string{}
+			for _, x := range got {
+				gs = append(gs, fmt.Sprint(x))
+			}
+			for _, x := range want {
+				ws = append(ws, fmt.Sprint(x))
+			}
+			sort.Strings(gs)
+			sort.Strings(ws)
+			if strings.Join(gs, ",") != strings.Join(ws, ",") {
+				fs = append(fs, Finding{Kind: "violation", Region: "proxy.accounts", Detail: fmt.Sprintf("member %d: eth_accounts returned %v, wallet holds %v", i, gs, ws)})
+			}
+		case "eth_sendTransaction":
+			e, verdict := cleanSendTx(m, script, accounts)
+			if !verdict {
+				verdictForAll = false
+			} else if e != nil {
+				expected = append(expected, e)
+				relayCheck(&fs, i, rp, scriptFor("eth_sendRawTransaction"))
+			}
+		default:
+			relayCheck(&fs, i, rp, scriptFor(method))
+			// reaches the backend with the same method and parameters
 			found := false
 			for _, g := range normList(req["implForwarded"]) {
 				gm := g.(map[string]any)
-				if gm["method"] != "eth_sendRawTransaction" || gm["from"] != fm["from"] {
-					continue
-				}
-				rec, _ := gm["rec"].(map[string]any)
-				tx, _ := fm["tx"].(map[string]any)
-				if rec == nil || tx == nil {
-					continue
-				}
-				want := func(k string) string {
-					v := tx[k]
-					if k == "nonce" && v == nil {
-						if n, isStr := fm["nonce"].(string); isStr {
-							return n
-						}
-						return "0"
-					}
-					switch t := v.(type) {
-					case string:
-						z, okk := new(big.Int).SetString(t, 0)
-						if okk {
-							return z.String()
-						}
-					case json.Number:
-						return t.String()
-					}
-					return "0"
-				}
-				got := func(k string) string {
-					if s, isStr := rec[k].(string); isStr {
-						return s
-					}
-					return "0"
-				}
-				okFields := got("nonce") == want("nonce") && got("gasLimit") == want("gas") && got("value") == want("value")
-				is1559 := want("maxFeePerGas") != "0" || want("maxPriorityFeePerGas") != "0"
-				if is1559 {
-					okFields = okFields && got("feeCap") == want("maxFeePerGas") && got("tip") == want("maxPriorityFeePerGas")
-				} else {
-					okFields = okFields && got("gasPrice") == want("gasPrice")
-				}
-				wantTo, _ := tx["to"].(string)
-				gotTo, _ := rec["to"].(string)
-				okFields = okFields && strings.TrimPrefix(strings.ToLower(wantTo), "0x") == gotTo
-				wantData, _ := tx["data"].(string)
-				okFields = okFields && strings.TrimPrefix(strings.ToLower(wantData), "0x") == fmt.Sprint(rec["data"])
-				if okFields {
+				if gm["method"] == method && same(normParams(gm["params"]), normParams(m["params"])) {
 					found = true
-					n, _ := c.Notes["signed_forwards_field_checked"].(int)
-					c.Notes["signed_forwards_field_checked"] = n + 1
 				}
 			}
-			if !found && same(strings.Join(modelFwd, "\n"), strings.Join(implFwd, "\n")) {
-				fs = append(fs, Finding{Kind: "violation", Region: "proxy.sendtx.fields", Detail: "forwarded raw transaction does not recover to the requested from / fields / nonce"})
+			if !found {
+				fs = append(fs, Finding{Kind: "violation", Region: "proxy.passthrough", Detail: fmt.Sprintf("member %d: %s did not reach the backend with the same method and parameters", i, method)})
 			}
 		}
-		return fs
+	}
+	// what was signed and submitted: the multiset of recovered raw transactions = the multiset expected
+	if verdictForAll {
+		var got, want []string
+		for _, g := range normList(req["implForwarded"]) {
+			gm := g.(map[string]any)
+			if gm["method"] != "eth_sendRawTransaction" {
+				continue
+			}
+			rec, _ := gm["rec"].(map[string]any)
+			if rec == nil {
+				// a raw transaction the client itself sent through, or one that does not recover
+				if gm["recoverErr"] == true {
+					got = append(got, "unrecoverable")
+				}
+				continue
+			}
+			gs := func(k string) string {
+				if sv, isStr := rec[k].(string); isStr {
+					return sv
+				}
+				return "0"
+			}
+			fee := "legacy:" + gs("gasPrice")
+			if rec["type"] == "1559" || gs("feeCap") != "0" || gs("tip") != "0" {
+				fee = "1559:" + gs("feeCap") + "/" + gs("tip")
+			}
+			got = append(got, strings.Join([]string{fmt.Sprint(gm["from"]), gs("nonce"), gs("gasLimit"), gs("value"), fee, strOrEmpty(rec["to"]), strOrEmpty(rec["data"])}, "|"))
+		}
+		for _, e := range expected {
+			fee := "legacy:" + e.gasPrice
+			if e.is1559 {
+				fee = "1559:" + e.feeCap + "/" + e.tip
+			}
+			want = append(want, strings.Join([]string{e.from, e.nonce, e.gas, e.value, fee, e.to, e.data}, "|"))
+		}
+		// pass-through eth_sendRawTransaction members carry params that are not transactions: they are not in `got`
+		sort.Strings(got)
+		sort.Strings(want)
+		if strings.Join(got, "\n") != strings.Join(want, "\n") {
+			fs = append(fs, Finding{Kind: "violation", Region: "proxy.sendtx.fields", Detail: "raw transactions that reached the backend (recovered: from|nonce|gas|value|fee|to|data) = [" + trunc(strings.Join(got, " ; "), 400) + "], required by the requests = [" + trunc(strings.Join(want, " ; "), 400) + "]"})
+		} else {
+			n, _ := c.Notes["signed_forwards_field_checked"].(int)
+			c.Notes["signed_forwards_field_checked"] = n + len(want)
+		}
+	}
+	return fs
+}
+
+func isHexStr(s string) bool {
+	for _, ch := range s {
+		if !(ch >= '0' && ch <= '9' || ch >= 'a' && ch <= 'f') {
+			return false
+		}
+	}
+	return true
+}
+
+func strOrEmpty(v any) string {
+	if sv, isStr := v.(string); isStr {
+		return sv
+	}
+	return ""
+}
+
+// the backend's result or error is what the caller gets
+func relayCheck(fs *[]Finding, i int, rp map[string]any, sc map[string]any) {
+	switch sc["kind"] {
+	case "result", "resultNoVersion", "wrongId":
+		if _, has := rp["result"]; !has || !same(normJ(rp["result"]), normJ(sc["value"])) {
+			*fs = append(*fs, Finding{Kind: "violation", Region: "proxy.relay.result", Detail: fmt.Sprintf("member %d: backend result %s was relayed as %s", i, trunc(canon(sc["value"]), 120), trunc(canon(rp), 200))})
+		}
+	case "rpcError", "httpErrorWithBody":
+		e, _ := rp["error"].(map[string]any)
+		code := sc["code"]
+		if code == nil {
+			code = json.Number("-32000")
+		}
+		if e == nil || !same(normJ(e["code"]), normJ(code)) {
+			*fs = append(*fs, Finding{Kind: "violation", Region: "proxy.relay.error", Detail: fmt.Sprintf("member %d: backend error code %v was relayed as %s", i, code, trunc(canon(rp), 200))})
+		}
+	case "httpErrorNoBody", "connFail":
+		if _, has := rp["error"].(map[string]any); !has {
+			*fs = append(*fs, Finding{Kind: "violation", Region: "proxy.relay.error", Detail: fmt.Sprintf("member %d: backend failure was relayed as %s", i, trunc(canon(rp), 200))})
+		}
 	}
 }
 
@@ -566,6 +827,18 @@ func proxyGen(prop string) func(c *Ctx) {
 				strings.Repeat("[", 10001) + strings.Repeat("]", 10001), strings.Repeat(`{"a":`, 5000) + "1" + strings.Repeat("}", 5000)}
 			for _, ws := range []int{0, 1, 99, 100, 101, 150, 10000} {
 				corner = append(corner, strings.Repeat(" ", ws)+`[{"jsonrpc":"2.0","id":1,"method":"eth_accounts"}]`, strings.Repeat("\n\t ", ws/3+1)+`{"jsonrpc":"2.0","id":1,"method":"eth_accounts"}`, strings.Repeat(" ", ws)+"[null]")
+			}
+			// eth_sendTransaction: every kind and size of `from` x nonce present / absent / null x single / batch member
+			for _, from := range []string{`5`, `0`, `-1`, `1.5`, `true`, `null`, `""`, `"z"`, `"0"`, `"0x"`, `"0x1"`, `[]`, `{}`, `[1]`, `"` + strings.Repeat("a", 39) + `"`, `"` + strings.Repeat("a", 41) + `"`,
+				`"0x` + strings.Repeat("b", 40) + `"`, `"` + strings.Repeat("0x", 5000) + `"`, `"0X` + rg.accounts[0] + `"`, `"` + strings.ToUpper(rg.accounts[0]) + `"`, `" 0x` + rg.accounts[0] + `"`} {
+				for _, nonce := range []string{``, `,"nonce":"0x1"`, `,"nonce":null`, `,"nonce":0`, `,"nonce":"0x0"`} {
+					one := `{"jsonrpc":"2.0","id":7,"method":"eth_sendTransaction","params":[{"from":` + from + nonce + `,"gas":"0x5208"}]}`
+					corner = append(corner, one, `[`+one+`]`)
+				}
+			}
+			for _, p0 := range []string{`5`, `"x"`, `[]`, `[[]]`, `true`, `{"from":{}}`, `{"gas":[]}`, `{"to":5,"from":"0x` + rg.accounts[0] + `"}`, `{"data":"0x1","from":"0x` + rg.accounts[0] + `"}`, `{"value":-1,"from":"0x` + rg.accounts[0] + `"}`, `{"FROM":"0x` + rg.accounts[0] + `","gas":1}`} {
+				one := `{"jsonrpc":"2.0","id":8,"method":"eth_sendTransaction","params":[` + p0 + `]}`
+				corner = append(corner, one, `[`+one+`,`+one+`]`)
 			}
 			for _, s := range corner {
 				addProxyCase(c, rg, []byte(s), proxyScript(r), nil, "corner")
